@@ -738,7 +738,7 @@ func (ss *symSet) collect(t *Term, bound map[string]bool) {
 const smtPrelude = `(define-fun godiv ((a Int) (b Int)) Int
   (ite (>= a 0) (ite (> b 0) (div a b) (- (div a (- b))))
                 (ite (> b 0) (- (div (- a) b)) (div (- a) (- b)))))
-(define-fun gomod ((a Int) (b Int)) Int (- a (* b (godiv a b))))
+(define-fun gomod ((a Int) (b Int)) Int (ite (>= a 0) (mod a b) (- (mod (- a) b))))
 `
 
 // EmitSMT renders a complete SMT-LIB2 query: hyps ∧ ¬goal.
